@@ -7,6 +7,10 @@ checks = {
    technique="small-scope exhaustive enumeration of the real code against an exact reference (explicit-state, dyadic alphabet)",
    text="Every integer box in [-2,2]^d x every half-integer point in [-3,3]^d (all 25/125 position classes, exact == against a clamp/corner oracle), every pair of closed intervals with end points 0..4, and every operand multiset of size 2-3 (4 thorough) from a 14-entry placed-primitive menu in two orders x 8 blends x a 25x25 lattice, Evaluate vs EvaluateSlow vs an independent fold. Bounded-exhaustive: the statement covered is the enumerated alphabet, not all reals.",
    note="dyadic coordinates (exact arithmetic); union operands are exact distance fields; blended values within 1e-9 of 0 are not sign-compared"),
+ "C20": dict(engine="E", design="3/C20",
+   technique="small-scope exhaustive enumeration of the real code against exact rational predicates (explicit-state)",
+   text="Every subset of size 3..6 (7-8 thorough) of a jittered 4x4 lattice (general position verified exactly with big.Rat) in several jitter scales, coordinate scales and offsets, in sorted and reversed input order, through the real Delaunay2d and Delaunay2dSlow; oracle = the unique exact Delaunay triangulation (all triples with exactly-empty circumcircle), count 2n-2-h with an exact hull, exact empty-circle test. Equality: every permutation x every rotation of every real triangulation with <=5 triangles and of every set of <=3 (4 thorough) triples over indices 0..5, plus one-triangle-different negatives.",
+   note="point sets are subsets of a fixed jittered lattice; two classes of genuine defects (hull slivers, absolute epsilon at micro scale) are listed in known_findings.json and matched by a predicate on the counterexample"),
 }
 props = [json.loads(l) for l in open(os.path.join(V, "properties.jsonl"))]
 pending_reason = "check not built yet in this session (work in progress, see DESIGN.md section 3 for the planned bounded-exhaustive check)"
